@@ -138,7 +138,11 @@ def build(seq, inter, place, variant):
     nodes += filler(0)
     for i, ch in enumerate(seq):
         # variant 1: names that differ only in ASCII case are the same type in an HTML tree (only the API can make them)
-        t = soup.new_tag(ch.upper() if variant == 1 and i % 3 == 1 else ch)
+        nm_ = ch
+        if variant == 1:
+            # 'aé' and 'Aé' are one type (ASCII case), 'AÉ' is another (É/é is not an ASCII pair) - only the API makes such names
+            nm_ = [ch + '\u00e9', (ch + '\u00e9').upper(), ch.upper() + '\u00e9'][i % 3]
+        t = soup.new_tag(nm_)
         if variant == 2:
             t['class'] = ['x']                     # look-alike siblings: equal by value (no ids, same class)
         elif (i * 7 + variant) % 3 != 1:
@@ -325,8 +329,12 @@ def run_unit(u):
                         k.ns = 'urn:v:d'
             # the same qualified name in another namespace: a sibling that re-declares the default namespace or re-binds a prefix
             for k in kids:
+                if k.ns is None and k.prefix is None and rng.random() < .2:
+                    k.ns = ''                  # "no namespace" spelled as the empty string (API-made): the same as None
+                    bump('empty_string_namespace')
+            for k in kids:
                 r = rng.random()
-                if r < .15 and k.prefix is None:
+                if r < .15 and k.prefix is None and k.ns != '':
                     k.nsdecl, k.ns = {'': 'urn:v:e'}, 'urn:v:e'
                     bump('same_name_other_namespace')
                 elif r < .3 and k.prefix == 'x':
